@@ -239,7 +239,12 @@ func protoNumberEncodeMethod(typ string, packed bool) string {
 func getExtensions(protoFile *protogen.File) func(*protogen.Message) []*protogen.Field {
 	// build a lookup of all extensions keyed by the extendee
 	extensionDict := make(map[protogen.GoIdent][]*protogen.Field)
-	for _, m := range protoFile.Messages {
+	// extensions declared at file level ...
+	for _, f := range protoFile.Extensions {
+		extensionDict[f.Extendee.GoIdent] = append(extensionDict[f.Extendee.GoIdent], f)
+	}
+	// ... and inside of messages, at any nesting level
+	for _, m := range allMessages(protoFile)() {
 		for _, f := range m.Extensions {
 			extensionDict[f.Extendee.GoIdent] = append(extensionDict[f.Extendee.GoIdent], f)
 		}
